@@ -258,6 +258,16 @@ def bounded(uni, tier, seed):
     # the strided n-way split that prints a compound step under a product
     specs.append("einsum:\n  declaration:\n    I: [W]\n    F: [S]\n    O: [Q]\n  expressions:\n    - O[q] = I[2*q + s] * F[s]\n"
                  "mapping:\n  partitioning:\n    O:\n      Q: [nway_shape(4)]\n      W: [follow(Q)]\n  loop-order:\n    O: [Q1, Q0, S]\n")
+    # displayed index math: a coordinate that is DERIVED from the loop coordinates (s = (w - a*q) / b, ...) is printed in
+    # canvas.addActivity through CoordAccess.build_expr, for every pair of loop ranks and small coefficients
+    for a in (1, 2, 3):
+        for b in (1, 2, 3):
+            for lo in (["W", "Q"], ["Q", "W"], ["W", "S"], ["S", "W"], ["Q", "S"], ["S", "Q"]):
+                for style in ("", ".coord"):
+                    specs.append("einsum:\n  declaration:\n    I: [W]\n    F: [S]\n    O: [Q]\n  expressions:\n"
+                                 "    - O[q] = I[%s + %s] * F[s]\n" % ("q" if a == 1 else "%d*q" % a, "s" if b == 1 else "%d*s" % b)
+                                 + "mapping:\n  loop-order:\n    O: [%s]\n  spacetime:\n    O:\n      space: []\n      time: [%s]\n"
+                                 % (", ".join(lo), ", ".join(r + style for r in lo)))
     # accelerator attributes spelled as floats / infinity (whatever the compiler accepts must print as the tree it built)
     from props import accel_family
     base_acc = accel_family.spec(None, "two-finger", "contiguous", ("coord", "payload"), ("L2", "Buf"), "lazy")
@@ -291,7 +301,8 @@ def bounded(uni, tier, seed):
     return {"evaluations": ev, "distinct_nontrivial": len(distinct) + n3 + n4, "failures": fails, "samples": samples,
             "rule": "literal leaves read back as the value held (random doubles by bit pattern + boundary values); "
                     "CoordAccess.build_expr on enumerated affine expressions and their sympy-solved forms; the statement "
-                    "tree HiFiber(...).hifiber of every integration spec, of the C19 family and of an accelerator specification "
+                    "tree HiFiber(...).hifiber of every integration spec, of the C19 family, of 108 displayed strided convolutions "
+                    "(derived coordinates through CoordAccess.build_expr) and of an accelerator specification "
                     "with float / infinite attribute values converted structurally "
                     "and compared with ast.parse of the emitted text (bounded)"}
 
